@@ -113,6 +113,23 @@ def _identities(m, trades, daily, fee, case, bad):
         got = m.get(key)
         if got is None or not (strict <= got <= loose):
             bad('identity', {'metric': key}, case, '%s = %r, the PnL sequence has a longest run of %d (%d counting break-even trades)' % (key, got, strict, loose))
+    # current streak: the trailing run, signed
+    def trailing(pred):
+        k = 0
+        for p in reversed(pnl):
+            if not pred(p):
+                break
+            k += 1
+        return k
+    cs = m.get('current_streak')
+    if pnl[-1] > 0:
+        lo, hi = trailing(lambda p: p > 0), trailing(lambda p: p >= 0)
+    elif pnl[-1] < 0:
+        lo, hi = -trailing(lambda p: p <= 0), -trailing(lambda p: p < 0)
+    else:
+        lo, hi = -trailing(lambda p: p <= 0), trailing(lambda p: p >= 0)
+    if cs is None or not (lo <= cs <= hi):
+        bad('identity', {'metric': 'current_streak'}, case, 'current_streak = %r, the trailing run of the PnL sequence is between %d and %d' % (cs, lo, hi))
     chk('starting_balance', START)
     # ---- ratios on the daily equity returns
     if len(daily) >= 2:
